@@ -10,6 +10,7 @@ use model::rng::{fnv, mix};
 pub struct Config {
     pub max_len: usize,
     /// leave out the C12 container matrix (its types repeat the shapes of the rest of the catalogue)
+    /// and the middle releases of the generated families
     pub skip_matrix: bool,
 }
 
@@ -57,8 +58,13 @@ pub fn run(cat: &Catalog, cfg: &Config, stats: &mut Stats, block: u64) -> Vec<Vi
     stats.runs += 1;
     let mut violations = Vec::new();
     for s in strings_of_block(block, cfg.max_len) {
-        for e in &cat.entries {
+        for (idx, e) in cat.entries.iter().enumerate() {
             if cfg.skip_matrix && e.name.starts_with("m.") {
+                continue;
+            }
+            // ... and, with it, the middle releases of the generated families and the sequences of
+            // their enums (the first and the last release stay)
+            if cfg.skip_matrix && idx >= cat.builtins && !(e.name.ends_with("_V0") || e.name.ends_with("_V5")) {
                 continue;
             }
             let mut c = Case::new("C05", "total", e.name, s.clone());
